@@ -200,6 +200,7 @@ func (s *mSlot) value() uint64 {
 
 type srvModel struct {
 	Registered bool
+	Gone       []glow.PublicKey // keys involved in a ban (the banned device's and the conflicting one): they name no device any more unless authorized under another id
 	GCA        glow.PublicKey
 	Temp       glow.PublicKey
 	Devices    map[uint32]glow.EquipmentAuthorization
@@ -220,6 +221,9 @@ func (m *srvModel) serverAuth(as server.AuthorizedServer) bool {
 	if !m.Registered || !refVerify(m.GCA, refServerSigningBytes(as), as.GCAAuthorization) {
 		return false
 	}
+	if len(as.Location) > 255 {
+		return false // the wire format cannot carry it (one length byte): listing it would make every sync reply undecodable
+	}
 	for i := range m.Servers {
 		if m.Servers[i].PublicKey == as.PublicKey {
 			if !m.Servers[i].Banned && as.Banned {
@@ -239,7 +243,7 @@ func (m *srvModel) migrate(em server.EquipmentMigration) bool {
 		return false
 	}
 	for _, s := range em.NewServers {
-		if !refVerify(em.NewGCA, refServerSigningBytes(s), s.GCAAuthorization) {
+		if len(s.Location) > 255 || !refVerify(em.NewGCA, refServerSigningBytes(s), s.GCAAuthorization) {
 			return false
 		}
 	}
@@ -428,6 +432,7 @@ func (m *srvModel) authorize(ea glow.EquipmentAuthorization) authOutcome {
 		return authDuplicate
 	}
 	// conflict: evidence is kept, the id is banned, its live data disappears
+	m.Gone = append(m.Gone, cur.PublicKey, ea.PublicKey)
 	m.AuthLog++
 	delete(m.Devices, ea.ShortID)
 	delete(m.Slots, ea.ShortID)
